@@ -251,6 +251,11 @@ def coq_property_file(pid, timeout=1500):
         # dependencies first
         rc, out = sh("timeout %d make -k -j%d -f Makefile.coq Properties_%s.vo" % (timeout, NPROC, pid),
                      cwd=COQ, timeout=timeout + 30)
+        if rc != 0:
+            # a concurrent build of the same files (another check, an editor session) can make one attempt fail
+            time.sleep(2)
+            rc, out = sh("timeout %d make -k -j%d -f Makefile.coq Properties_%s.vo" % (timeout, NPROC, pid),
+                         cwd=COQ, timeout=timeout + 30)
         res["log"] = out
         if rc != 0:
             res["bad"].append("make Properties_%s.vo failed" % pid)
